@@ -948,6 +948,24 @@ def z15_sound_infos(F, R, M, roles):
                 if refused != (st_ + cn_ > tot):
                     bad = 'start=%d count=%d with %d items available is %s' % (st_, cn_, tot, 'refused' if refused else 'sent to the device')
                     break
+        # the response is decoded only on the edge where its status equals Ok
+        reads_ = [c.id for c in sg.calls(lambda d_: d_.get('fn', '').endswith('::read_from_bytes') or d_.get('method') == 'read_from_bytes')]
+        reqs_ = [c.id for c in sg.calls(lambda d_: d_.get('fn') in req)]
+        for m in sg.nodes:
+            if m.kind != 'switch' or m.ctx != 0:
+                continue
+            d = S.operand(m.id, m.d['discr'])
+            is_eq = (d[0] == 'bin' and d[1] == 'Eq') or (d[0] == 'call' and d[2] == 'core::cmp::PartialEq::eq')
+            is_ne = (d[0] == 'bin' and d[1] == 'Ne') or (d[0] == 'call' and d[2] == 'core::cmp::PartialEq::ne')
+            if not (is_eq or is_ne) or not any(x[0] == 'call' and x[1] in reqs_ for x in deep_subterms(S, d)):
+                continue
+            explicit = [x for x, _ in m.switch_edges if x is not None]
+            for val, sc in m.switch_edges:
+                truth = (val is not None and val != 0) or (val is None and 0 in explicit)
+                equal = truth if is_eq else not truth
+                reach = sg.reach_fwd([sc])
+                if not equal and any(r_ in reach for r_ in reads_):
+                    bad = bad or 'the response is decoded on the edge where its status differs from Ok (and refused when it is Ok)'
         # every decoded element is appended, inside the loop
         reads = [c for c in sg.calls(lambda d_: d_.get('fn', '').endswith('::read_from_bytes') or d_.get('method') == 'read_from_bytes')]
         pushes = [c for c in sg.calls(lambda d_: d_.get('fn', '').startswith('alloc::vec::Vec::') and d_['fn'].endswith('::push'))]
